@@ -24,6 +24,8 @@ pub enum KOp {
     CreateUser { name: u8, pwd: u8, active: bool },
     SetStatus { user: u16, active: bool },
     Rename { user: u16, name: u8 },
+    /// one update_user command carrying a new username AND a new status
+    RenameAndStatus { user: u16, name: u8, active: bool },
     ChangePassword { user: u16, by_root: bool, right_current: bool, new: u8 },
     CreateToken { user: u16, name: u8, expiry_s: Option<u16> },
     DeleteToken { user: u16, token: u16 },
@@ -401,6 +403,26 @@ impl<'a> Interp<'a> {
                 self.users.get_mut(&uid).unwrap().name = name;
                 Ok(())
             }
+            KOp::RenameAndStatus { user, name, active } => {
+                let Some(uid) = self.pick_user(user, false) else { return Ok(()) };
+                let name = username_of(name);
+                if name.len() < 3 || self.users.values().any(|u| u.name == name) {
+                    return Ok(());
+                }
+                let n = self.node();
+                let st = if active { UserStatus::Active } else { UserStatus::Inactive };
+                let r = n.block_on(async { self.admin().update_user(&Identifier::numeric(uid).unwrap(), Some(&name), Some(st)).await });
+                if let Err(e) = r {
+                    return Err(self.fail("update-user-failed", format!("rename to '{name}' with status {active}: {e}")));
+                }
+                let pwd = self.users[&uid].password.clone();
+                self.remember(Cred::Password { username: name.clone(), password: pwd });
+                let u = self.users.get_mut(&uid).unwrap();
+                u.name = name;
+                u.active = active;
+                self.out.label("renamed-and-status-in-one-command");
+                Ok(())
+            }
             KOp::ChangePassword { user, by_root, right_current, new } => {
                 let Some(uid) = self.pick_user(user, true) else { return Ok(()) };
                 let u = self.users[&uid].clone();
@@ -676,6 +698,7 @@ impl Engine for Creds {
             8 => (0u8..9, 0u8..5, prop_oneof![5 => Just(true), 1 => Just(false)]).prop_map(|(name, pwd, active)| KOp::CreateUser { name, pwd, active }),
             3 => (any::<u16>(), any::<bool>()).prop_map(|(user, active)| KOp::SetStatus { user, active }),
             3 => (any::<u16>(), 0u8..9).prop_map(|(user, name)| KOp::Rename { user, name }),
+            3 => (any::<u16>(), 0u8..9, any::<bool>()).prop_map(|(user, name, active)| KOp::RenameAndStatus { user, name, active }),
             6 => (any::<u16>(), any::<bool>(), prop_oneof![3 => Just(true), 1 => Just(false)], 0u8..5).prop_map(|(user, by_root, right_current, new)| KOp::ChangePassword { user, by_root, right_current, new }),
             8 => (any::<u16>(), 0u8..4, prop_oneof![1 => Just(None), 2 => (0u16..120).prop_map(Some)]).prop_map(|(user, name, expiry_s)| KOp::CreateToken { user, name, expiry_s }),
             3 => (any::<u16>(), any::<u16>()).prop_map(|(user, token)| KOp::DeleteToken { user, token }),
@@ -722,7 +745,7 @@ impl Engine for Creds {
         out
     }
     fn rule(&self, _p: &Params) -> String {
-        "case = generated history of create user (active/inactive; usernames incl. digit-only and zero-padded ones such as '001'), status change, rename, password change (own / by root, right / wrong current password), token creation (never / expiring) and deletion, clock advances across expiry (frozen clock, hook H2), user deletion, logout, restart, passes of the expired-token cleaner, and over HTTP: login + logout, login + refresh-token, sessions kept open; after EVERY step every credential the harness has ever seen (current, stale, expired, deleted, other users', bogus) is tried on a fresh TCP connection AND over HTTP: it must authenticate iff the model says it is valid now AND as its owner's user id (over HTTP the issued JWT must list exactly its owner's tokens), every JWT handed out earlier must be refused once revoked (logout / refresh) or once its user is deleted - also after a restart - and must otherwise still act as its user; after a cleaner pass every user's token list equals the model's unexpired tokens; at restart and at the end every file under the data directory is searched for every password and raw token (plain and base64); non-trivial = >=1 login attempt with a credential that is not valid at that moment, or a token owned by a digit-only username".into()
+        "case = generated history of create user (active/inactive; usernames incl. digit-only and zero-padded ones such as '001'), status change, rename, both in one command, password change (own / by root, right / wrong current password), token creation (never / expiring) and deletion, clock advances across expiry (frozen clock, hook H2), user deletion, logout, restart, passes of the expired-token cleaner, and over HTTP: login + logout, login + refresh-token, sessions kept open; after EVERY step every credential the harness has ever seen (current, stale, expired, deleted, other users', bogus) is tried on a fresh TCP connection AND over HTTP: it must authenticate iff the model says it is valid now AND as its owner's user id (over HTTP the issued JWT must list exactly its owner's tokens), every JWT handed out earlier must be refused once revoked (logout / refresh) or once its user is deleted - also after a restart - and must otherwise still act as its user; after a cleaner pass every user's token list equals the model's unexpired tokens; at restart and at the end every file under the data directory is searched for every password and raw token (plain and base64); non-trivial = >=1 login attempt with a credential that is not valid at that moment, or a token owned by a digit-only username".into()
     }
     fn assumptions(&self, _p: &Params) -> Vec<String> {
         vec!["secrets shorter than 6 bytes are not searched for at rest (chance occurrences)".into(), "clock advances are whole seconds + 0.5 s so no login happens exactly at an expiry instant".into()]
